@@ -1433,8 +1433,10 @@ class ForAll(BinaryOperator):
     def condition_unique_variable_ids(self) -> List[int]:
         # Literals are not bindings: a condition value served from the result cache does not carry them, so keeping them
         # here would make the same binding look different between universal values.
+        # Neither is the result of a predicate call: it is the truth value of (part of) the condition under one universal
+        # value, and a truthy result that is not a bool (a number, a collection) differs from one value to the next.
         return [v.id_ for v in self.condition._unique_variables_.difference(self.left._unique_variables_)
-                if not isinstance(v.value, Literal)]
+                if not isinstance(v.value, Literal) and not getattr(v.value, "_predicate_type_", None)]
 
     @lru_cache(maxsize=None)
     def _required_variables_from_child_(self, child: Optional[SymbolicExpression] = None, when_true: bool = True):
